@@ -44,7 +44,7 @@ def run(pid, tier, replay=None):
     ck.part("plain_pid_model", invariants=["OutInLimits", "IntegratorBounded", "PosEqualsInc (two shadow controllers in lock-step)", "ZeroIsFresh"])
     apalache_step(ck, sc)
     exe = vlib.cc_build(sc.path("pid_h"), [os.path.join(vlib.HARNESS, "pid_h.c")] + vlib.repo_src("pid.c", "a.c"), sc)
-    r = vlib.run_harness([exe, out, sc.path("g"), "14", str(ck.seed), "30" if q else "300"], timeout=1800)
+    r = vlib.run_harness([exe, out, sc.path("g"), "14", str(ck.seed), "30" if q else "300", "1" if q else "16"], timeout=1800)
     m = re.search(r"^SUMMARY (\{.*\})$", r.stdout or "", re.M)
     if r.returncode != 0 or not m:
         raise Broken("harness failed rc=%s: %s" % (r.returncode, (r.stderr or "")[-1500:]))
@@ -54,13 +54,13 @@ def run(pid, tier, replay=None):
         ck.violation("replay:pid:%s" % d["op"], dict(d, what="state after the real call differs from the model's"))
     if res.generated - res.init_states != summ["edges"]:
         raise Broken("emitted %d transitions, replayed %d" % (res.generated - res.init_states, summ["edges"]))
-    ck.part("replay_plain_pid", **summ)
+    ck.part("replay_plain_pid", trace_validated_share="all edges" if q else "every 16th edge (all edges are compared natively with the model's successor state) and all random histories", **summ)
     files = sorted(glob.glob(sc.path("g-*.ndjson")))
     nev, bad = vlib.validate_collect(os.path.join(SPECDIR, "PidTrace.tla"), os.path.join(SPECDIR, "PidTrace.cfg"), files, sc)
     for f, idx, ev in bad:
         ck.violation("trace:pid:%s" % ev.get("op"), {"what": "TLC rejected the recorded controller step", "event": ev})
     ck.cov["traces_validated_against_impl"] += nev
-    ck.cov["evaluations"] += summ["events"]
+    ck.cov["evaluations"] += max(summ["events"], summ["edges"])      # every edge is executed and compared natively
     ck.cov["distinct_nontrivial"] += summ["edges"]
     with open(files[0]) as fh:
         ck.sample(json.loads(fh.readline()))
